@@ -492,7 +492,9 @@ func checkC11(w *Worker) {
 	// every graph on two recipes and a plain ingredient (self-references, cycles of two, forks, empty recipes) as a FILE read by
 	// the commands that resolve the book: the loader stands between the file and the resolver, and it must hand over
 	// every line that is in the file
-	appCmds := [][]string{{"--no-color", "reg"}, {"--no-color", "bal"}, {"csv", "database-resolved"}, {"report", "element-total", "x"}, {"report", "totals"}, {"--no-color", "summary", "2021/01/24"}, {"report", "unresolved"}}
+	appCmds := [][]string{{"--no-color", "reg"}, {"--no-color", "bal"}, {"csv", "database-resolved"}, {"report", "element-total", "x"}, {"report", "totals"}, {"--no-color", "summary", "2021/01/24"}, {"report", "unresolved"},
+		// ... asked about a name that is a recipe of the book itself
+		{"report", "element-total", "r1"}, {"report", "element-total", "r0"}, {"--no-color", "reg", "-s", "r1"}, {"--no-color", "bal", "-s", "r0"}}
 	w.Explore("graphs-through-files-and-commands", ExploreOpts{ShardDepth: 3}, func(x *Exec) {
 		all := []string{"r0", "r1", "x"}
 		book := absBook{}
